@@ -1,7 +1,7 @@
-(* PropC04.v — C04: queue positions never regress or get reused (live part: any history of calls; restarts and crash recovery rest on C01/C02, see stated_not_proved).
+(* PropC04.v — C04: queue positions never regress or get reused: any history of calls WITH CLEAN RESTARTS ANYWHERE (from a fresh directory, hist_ok); crash recovery rests on C02.
    Statements only; each theorem is closed by `exact <lemma>`; proofs live in the imported files. *)
 From Coq Require Import Lia NArith List.
-From MRL Require Import Bytes Params Names Frame Record Mem Spec Rolling Log Hist SpecRefine QueueIso.
+From MRL Require Import Bytes Params Names Frame Record Mem Spec Rolling Log Hist SpecRefine QueueIso RestartInv RestartFinal RestartCorollaries.
 
 (* specification level: next position never decreases within an incarnation; last positions returned by appends strictly increase and lie in [old next, new next) *)
 Theorem C04_spec_next_monotone :
@@ -92,4 +92,95 @@ Theorem C04_step_positions :
     (forall x : N * bytes, In x recs' -> fst x < next').
 Proof. exact log_step_positions. Qed.
 Print Assumptions C04_step_positions.
+
+(* histories with restarts anywhere: within an incarnation the last positions reported by appends strictly increase across restarts, and the final next position is the specification's *)
+Theorem C04_positions_fresh_with_restarts :
+    forall P : params,
+    7 < BS P ->
+    BS P <= 65542 ->
+    1 <= NB P ->
+    (forall (t : byte) (p : bytes), crcf P t p < 2 ^ 32) ->
+    L_GC P = false ->
+    L_IO P = false ->
+    forall (pol0 : policy) (st0 : state) (h : list hop) (st : state) (outs : list outcome) (q : bytes),
+    open P [] None pol0 [] = OpenOk st0 ->
+    hist_ok P st0 h ->
+    hrun P st0 h = Some (st, outs) ->
+    log_never_deleted q (hcalls_t h) outs ->
+    incr_between 0 (log_next st q) (log_lasts q (hcalls_t h) outs) /\
+    Sorted.StronglySorted N.lt (log_lasts q (hcalls_t h) outs) /\
+    (forall l : N, In l (log_lasts q (hcalls_t h) outs) -> l < log_next st q) /\
+    (exists (m : smap) (souts : list sout),
+    s_run [] (map sop_of (hcalls h)) = (m, souts) /\
+    map out_logical outs = map Some souts /\
+    log_next st q = next_or0 (s_get m q) /\ log_last_position st q = s_last_position m q).
+Proof. exact positions_fresh_with_restarts. Qed.
+Print Assumptions C04_positions_fresh_with_restarts.
+
+(* after truncate(..=p) every later position of the incarnation is above p, whatever restarts, roll-overs and file deletions follow *)
+Theorem C04_after_truncate_with_restarts :
+    forall P : params,
+    7 < BS P ->
+    BS P <= 65542 ->
+    1 <= NB P ->
+    (forall (t : byte) (p : bytes), crcf P t p < 2 ^ 32) ->
+    L_GC P = false ->
+    L_IO P = false ->
+    forall (pol0 : policy) (st0 : state) (h1 : list hop) (q : bytes) (p : N) (hint : list bytes)
+    (tick : bool) (h2 : list hop) (st1 : state) (outs1 : list outcome) (st : state)
+    (e n : N) (outs2 : list outcome),
+    open P [] None pol0 [] = OpenOk st0 ->
+    hist_ok P st0 (h1 ++ HCall (OTruncate q p hint) tick :: h2) ->
+    hrun P st0 h1 = Some (st1, outs1) ->
+    hrun P st1 (HCall (OTruncate q p hint) tick :: h2) = Some (st, OutTruncate e n :: outs2) ->
+    log_never_deleted q (hcalls_t h2) outs2 ->
+    hrun P st0 (h1 ++ HCall (OTruncate q p hint) tick :: h2) =
+    Some (st, outs1 ++ OutTruncate e n :: outs2) /\
+    incr_between (p + 1) (log_next st q) (log_lasts q (hcalls_t h2) outs2) /\
+    (forall l : N, In l (log_lasts q (hcalls_t h2) outs2) -> p < l).
+Proof. exact after_truncate_with_restarts. Qed.
+Print Assumptions C04_after_truncate_with_restarts.
+
+(* a restart never changes a next position, also for a queue that was emptied and whose WAL files were all deleted *)
+Theorem C04_restart_keeps_next :
+    forall P : params,
+    7 < BS P ->
+    BS P <= 65542 ->
+    1 <= NB P ->
+    (forall (t : byte) (p : bytes), crcf P t p < 2 ^ 32) ->
+    L_GC P = false ->
+    L_IO P = false ->
+    forall (st : state) (G : ghost) (pol : policy) (hint : list bytes) (st' : state),
+    Inv P st G ->
+    restart_bound P st ->
+    restart P st pol hint = OpenOk st' ->
+    (forall q : bytes, log_next st' q = log_next st q) /\
+    (forall q : bytes, log_last_position st' q = log_last_position st q).
+Proof. exact restart_keeps_next. Qed.
+Print Assumptions C04_restart_keeps_next.
+
+(* the next append gets the same position before and after the restart *)
+Theorem C04_next_position_survives_restart :
+    forall P : params,
+    7 < BS P ->
+    BS P <= 65542 ->
+    1 <= NB P ->
+    (forall (t : byte) (p : bytes), crcf P t p < 2 ^ 32) ->
+    L_GC P = false ->
+    L_IO P = false ->
+    forall (pol0 : policy) (st0 : state) (h : list hop) (st : state) (outs : list outcome)
+    (pol : policy) (hint : list bytes) (st' : state),
+    open P [] None pol0 [] = OpenOk st0 ->
+    hrun P st0 h = Some (st, outs) ->
+    hist_ok P st0 h ->
+    restart_bound P st ->
+    restart P st pol hint = OpenOk st' ->
+    (forall q : bytes, log_last_position st' q = log_last_position st q) /\
+    (forall (q : bytes) (pos : option N) (pl : list bytes) (tick tick' : bool)
+    (s1 : state) (l : option N) (n : N) (s1' : state) (out' : outcome),
+    step P st (OAppend q pos pl) tick = (s1, OutAppend l n) ->
+    step P st' (OAppend q pos pl) tick' = (s1', out') ->
+    WriterProofs.is_io out' = false -> exists n' : N, out' = OutAppend l n').
+Proof. exact next_position_survives_restart. Qed.
+Print Assumptions C04_next_position_survives_restart.
 
